@@ -171,7 +171,60 @@ def o4_o5(prog, rep):
         return
     want_rc = {(READ, "reader"), (WRITE, "writer"), (READ, POLLIN), (WRITE, POLLOUT)}
     want_get = {(("ready", POLLIN), "reader"), (("ready", POLLOUT), "writer"), (("ready", POLLIN), POLLIN), (("ready", POLLOUT), POLLOUT)}
-    for f, want in ((reg, want_rc), (can, want_rc), (get, want_get)):
+    from ..dataflow import decide_with
+
+    def with_op(f, OP, val):
+        """(slot members touched, poll bits set or cleared) in the part of f that can run when the operation is `val`: the graph
+        pruned by every test (if, switch) that the value of `op` decides; a bit held in a local is what the pruned graph assigns it"""
+        seen, work = set(), [f.entry]
+        while work:
+            b = work.pop()
+            if b in seen:
+                continue
+            seen.add(b)
+            blk = f.blocks[b]
+            succs = [x for x in blk.succs if x is not None]
+            if blk.term_cls == "SwitchStmt" and blk.cond is not None and norm(blk.cond) == OP:
+                hit = [x for x in succs if val in f.blocks[x].case_values()]
+                succs = hit or [x for x in succs if f.blocks[x].is_default] or succs
+            elif blk.cond is not None and len(blk.succs) == 2:
+                d = decide_with(blk.cond, OP, val)
+                if d is True:
+                    succs = [blk.succs[0]] if blk.succs[0] is not None else []
+                elif d is False:
+                    succs = [blk.succs[1]] if blk.succs[1] is not None else []
+            work.extend(succs)
+        elems = [e for b in seen for e in f.blocks[b].elems]
+        flds = set(e.decl["name"] for e in elems if e.cls == "MemberExpr" and e.decl and e.decl.get("name") in ("reader", "writer"))
+
+        def consts(t, depth=0):
+            while t[0] == "cast":
+                t = t[-1]
+            if t[0] == "c":
+                return {t[1]}
+            if t[0] == "v" and len(t) > 2 and depth < 3:
+                out = set()
+                defs = [e for e in elems if e.is_assign and e.op == "=" and norm(e.kid(0)) == t]
+                defs_i = [norm(f.elem(d["init"])) for e in elems if e.cls == "DeclStmt" for d in (e.decls or []) if isinstance(d, dict) and d.get("id") == t[2] and d.get("init")]
+                for d in [norm(e.kid(1)) for e in defs] + defs_i:
+                    out |= consts(d, depth + 1)
+                return out or {None}
+            return {None}
+        bits = set()
+        for e in elems:
+            if e.is_assign and e.op == "|=" and fieldname(norm(e.kid(0))) == "events":
+                bits |= consts(norm(e.kid(1)))
+            if e.cls == "CallExpr" and e.callee == "clearbit" and e.arg(1) is not None:
+                bits |= consts(norm(e.arg(1)))
+        return flds, bits
+    for f in (reg, can):
+        OP = [("v", p_["name"], p_["id"]) for p_ in f.params if p_["name"] == "op"][0]
+        got = {val: with_op(f, OP, val) for val in (READ, WRITE)}
+        okm = got[READ] == ({"reader"}, {POLLIN}) and got[WRITE] == ({"writer"}, {POLLOUT})
+        rep.check(okm, "O4-mapping", "%s: operation/slot/poll-bit mapping" % f.name, f.loc,
+                  "with op = READ the code that can run touches %s and bits %s; with op = WRITE %s and bits %s; required reader/POLLIN(1) and writer/POLLOUT(4)"
+                  % (sorted(got[READ][0]), sorted(map(str, got[READ][1])), sorted(got[WRITE][0]), sorted(map(str, got[WRITE][1]))), function=f.name, construct="mapping")
+    for f, want in ((get, want_get),):
         got = triples(f)
         rep.check(got == want, "O4-mapping", "%s: operation/slot/poll-bit mapping" % f.name, f.loc,
                   "found %s ; required READ-reader-POLLIN(1), WRITE-writer-POLLOUT(4)" % sorted(map(str, got)), function=f.name, construct="mapping")
